@@ -29,7 +29,7 @@ def value(rng, T):
 
 def op(rng, modelled):
     k = rng.random()
-    n = rng.choice(NAMES)
+    n = rng.choice(NAMES) if rng.random() < 0.93 else rng.choice(["NOOP", "INTEGER.+", "TRUE", " x", ""])    # names no parser produces, the API does
     if k < 0.4:                      # define: value, quoted name, T.DEFINE
         T = rng.choice([t for t in TYPES if t + ".DEFINE" in modelled])
         items = value(rng, T) + [I("NAME.QUOTE"), N(n), I(T + ".DEFINE")]
